@@ -352,6 +352,11 @@ def vf2pp_all_isomorphisms(
     inverted_mapping = state.inverted_mapping
     termination_length = len(g1)
 
+    if termination_length == 0:
+        # the empty mapping is the only mapping of a graph without atoms
+        yield {}
+        return
+
     # Initialize the stack
     node_order: list[AtomId] = _matching_order(params)
     candidates: set[AtomId] = find_candidates(node_order[0], state, params)
